@@ -298,3 +298,152 @@ if __name__ == "__main__":
     i = analyse()
     print(json.dumps(i, indent=1))
     print(gen(i)["Gen_C18.v"])
+
+
+# ------------------------------------------------------------------------------------------------
+# Every other piece of module- or class-level state on the Pose.read path (second tie): the inventory of
+# module/class-level assignments of the five files a read executes, and - per function - the accesses to such
+# state in source order: every WRITE (attribute/item store on a module-level name, setattr/delattr, mutating
+# method call, `global`) in any function, and every READ (`Class.attr`, getattr/hasattr) in the functions a read
+# runs.  BufferReader.unpack_f's per-format ConstStructs memo (hasattr / setattr / getattr) is the one piece of
+# shared state besides PoseHeaderCache; it is modelled in coq/model/C18_StructMemo.v.
+STATE_FILES = ("utils/reader.py", "pose_header.py", "pose.py", "pose_body.py", "numpy/pose_body.py")
+READ_PATH = ("read", "read_v0_0", "read_v0_1", "read_v0_1_frames", "read_v0_2", "__init__", "unpack", "unpack_f", "unpack_str",
+             "unpack_numpy", "advance", "skip", "expect_to_read", "bytes_left", "read_chunk", "calc_hash", "check_cache", "set_cache",
+             "clear_cache")
+MUTATORS = ("append", "extend", "insert", "add", "update", "setdefault", "pop", "popitem", "remove", "discard", "clear", "sort", "reverse")
+DYN = ("setattr", "delattr", "hasattr", "getattr", "vars")
+
+
+def _is_main_guard(n):
+    return isinstance(n, ast.If) and "__name__" in ast.unparse(n.test)
+
+
+def _targets(n):
+    if isinstance(n, ast.Assign):
+        ts = n.targets
+    elif isinstance(n, (ast.AnnAssign, ast.AugAssign)):
+        ts = [n.target] if (not isinstance(n, ast.AnnAssign) or n.value is not None) else []
+    else:
+        return []
+    out = []
+    for t in ts:
+        for e in (t.elts if isinstance(t, (ast.Tuple, ast.List)) else [t]):
+            out.append(ast.unparse(e))
+    return out
+
+
+def _level_state(body, prefix, out, classes, where):
+    for n in body:
+        if isinstance(n, (ast.Assign, ast.AnnAssign, ast.AugAssign)):
+            out.extend(prefix + t for t in _targets(n))
+        elif isinstance(n, ast.ClassDef):
+            classes.add(n.name)
+            _level_state(n.body, prefix + n.name + ".", out, classes, where)
+        elif _is_main_guard(n):
+            continue
+        elif isinstance(n, (ast.If, ast.Try, ast.With, ast.For, ast.While)):
+            fail("%s: module/class-level compound statement may hide state: %s" % (where, ast.unparse(n).splitlines()[0][:60]))
+
+
+def _root(n):
+    while isinstance(n, (ast.Attribute, ast.Subscript)):
+        n = n.value
+    return n.id if isinstance(n, ast.Name) else None
+
+
+def _fn_tokens(f, globals_, classes, on_read_path):
+    local = {a.arg for a in f.args.args + f.args.kwonlyargs + f.args.posonlyargs}
+    if f.args.vararg:
+        local.add(f.args.vararg.arg)
+    if f.args.kwarg:
+        local.add(f.args.kwarg.arg)
+    for n in ast.walk(f):
+        if isinstance(n, ast.Name) and isinstance(n.ctx, ast.Store):
+            local.add(n.id)
+    toks = []
+
+    def shared(name):
+        return name is not None and name in globals_ and name not in local
+
+    def visit(n):
+        if isinstance(n, (ast.Global, ast.Nonlocal)):
+            fail("%s uses `%s`" % (f.name, ast.unparse(n)))
+        if isinstance(n, (ast.FunctionDef, ast.Lambda)) and n is not f:
+            pass
+        if isinstance(n, (ast.Attribute, ast.Subscript)) and isinstance(n.ctx, (ast.Store, ast.Del)) and shared(_root(n)):
+            visit_children(n)
+            toks.append("store " + ast.unparse(n.value if isinstance(n, ast.Subscript) else n) + ("[]" if isinstance(n, ast.Subscript) else ""))
+            return
+        if isinstance(n, ast.Call):
+            fn = n.func
+            if isinstance(fn, ast.Name) and fn.id in DYN and n.args and shared(_root(n.args[0])):
+                for a in n.args[1:]:
+                    visit(a)
+                if fn.id in ("setattr", "delattr") or on_read_path:
+                    toks.append("%s %s" % (fn.id, ast.unparse(n.args[0])))
+                return
+            if isinstance(fn, ast.Attribute) and fn.attr in MUTATORS and isinstance(fn.value, (ast.Attribute, ast.Name)) and shared(_root(fn.value)) \
+                    and not (isinstance(fn.value, ast.Name)):
+                for a in n.args:
+                    visit(a)
+                toks.append("mutate %s.%s" % (ast.unparse(fn.value), fn.attr))
+                return
+        if on_read_path and isinstance(n, ast.Attribute) and isinstance(n.ctx, ast.Load) and isinstance(n.value, ast.Name) \
+                and n.value.id in classes and n.value.id not in local:
+            toks.append("load %s.%s" % (n.value.id, n.attr))
+            return
+        visit_children(n)
+
+    def visit_children(n):
+        for c in ast.iter_child_nodes(n):
+            visit(c)
+
+    for s in f.body:
+        visit(s)
+    return toks
+
+
+def shared_state():
+    """-> (inventory [str], functions [str])"""
+    trees = {rel: parse(rel) for rel in STATE_FILES}
+    inventory, classes, globals_ = [], set(), set()
+    for rel, t in trees.items():
+        st = []
+        _level_state(t.body, "", st, classes, rel)
+        inventory.extend("%s:%s" % (rel, x) for x in st)
+        for n in t.body:
+            if isinstance(n, (ast.Import, ast.ImportFrom)):
+                globals_.update((a.asname or a.name).split(".")[0] for a in n.names)
+            globals_.update(x.split(".")[0] for x in st)
+    globals_ |= classes
+    funcs = []
+    for rel, t in trees.items():
+        def walk(body, prefix):
+            for n in body:
+                if isinstance(n, ast.ClassDef):
+                    walk(n.body, prefix + n.name + ".")
+                elif isinstance(n, (ast.FunctionDef, ast.AsyncFunctionDef)):
+                    toks = _fn_tokens(n, globals_, classes, n.name in READ_PATH)
+                    if toks:
+                        funcs.append("%s:%s%s: %s" % (rel, prefix, n.name, "; ".join(toks)))
+        walk([n for n in t.body if not _is_main_guard(n)], "")
+    return inventory, funcs
+
+
+_gen_memo = gen
+
+
+def gen(info=None):   # noqa: F811  (extends the generated file with the second tie)
+    out = _gen_memo(info)
+    inv, funcs = shared_state()
+    text = out["Gen_C18.v"]
+    text += "\nDefinition state_inventory : list string :=\n  %s.\n" % clist([cstr(x) for x in inv])
+    text += "\nDefinition shared_state_accesses : list string :=\n  %s.\n" % clist([cstr(x) for x in funcs])
+    return {"Gen_C18.v": text}
+
+
+if __name__ == "__main__":
+    inv, funcs = shared_state()
+    print("\n".join(inv))
+    print("\n".join(funcs))
